@@ -171,16 +171,18 @@ pub struct TimelineBuilderArguments<Data: Clone + Debug> {
 }
 
 impl<Data: Clone + Debug> From<TimelineConfiguration<Data>> for TimelineBuilderArguments<Data> {
-    fn from(value: TimelineConfiguration<Data>) -> Self {
-        let mut args = Self {
+    fn from(mut value: TimelineConfiguration<Data>) -> Self {
+        // Sort before deriving the boundary times: they are binary-searched and their indices
+        // refer to the sorted keyframe sequence.
+        value
+            .keyframes
+            .sort_by(|a, b| a.normalized_time.total_cmp(&b.normalized_time));
+        Self {
             timescale: value.create_timescale(),
             boundary_times: value.get_boundary_times(),
             default_easing: value.default_easing,
             keyframes: value.keyframes,
-        };
-        args.keyframes
-            .sort_by(|a, b| a.normalized_time.total_cmp(&b.normalized_time));
-        args
+        }
     }
 }
 
